@@ -5,7 +5,7 @@ import gen as G
 import cont
 
 MODEL_TARGETS = ["model/Container.vo"]
-COQ_TARGETS = ["props/C17.vo"]
+COQ_TARGETS = ["props/C17.vo", "proofs/ConstsTie.vo"]
 THEOREMS = [("C17", ["C17_truncation_general", "C17_truncation_prefix", "C17_sync", "C17_data_left_in_block", "C17_count_too_small",
                      "C17_size_beyond_input", "C17_short_block", "C17_once", "C17_eof_sticky"])]
 PROOF_FILES = ["proofs/ContainerReadProofs.v", "proofs/ContainerProofs.v", "props/C17.v"]
